@@ -14,7 +14,10 @@ Inductive case :=
 | CSup (w x : Z) (out : list Z)                       (* iter_supermasks *)
 | CNext (d : list Z) (r : bool) (out : list Z)        (* next_permutation(&mut d) = r, d afterwards = out *)
 | CIter (d : list Z) (out : list (list Z))            (* iter_permutations(d).collect() *)
-| CNb (k : nbkind) (n m i j : Z) (out : list (Z * Z)). (* iter_neighbours_k(n, m, i, j).collect() *)
+| CNb (k : nbkind) (n m i j : Z) (out : list (Z * Z))  (* iter_neighbours_k(n, m, i, j).collect() *)
+| CSubPre (w x k : Z) (out : list Z)                  (* iter_submasks::<w-bit type>(x).take(k).collect() *)
+| CSupPre (w x k : Z) (out : list Z)                  (* iter_supermasks::<w-bit type>(x).take(k).collect() *)
+| CIterPre (d : list Z) (k : Z) (out : list (list Z)). (* iter_permutations(d).take(k).collect() *)
 
 (** Printing aid for the wide types (a 128-bit decimal numeral costs Coq's parser about 3 ms): when every item [u]
     of an observed output agrees with [base] outside the bit positions [free], the printer writes the item as the
@@ -31,6 +34,22 @@ Definition unpack (free base : Z) (idxs : list Z) : list Z :=
   map (fun i => base + Z.of_N (deposit (Z.to_N free) (Z.to_N i))) idxs.
 Definition unpack_sub (x : Z) (idxs : list Z) : list Z := unpack x 0 idxs.
 Definition unpack_sup (w x : Z) (idxs : list Z) : list Z := unpack (2 ^ w - 1 - x) x idxs.
+
+(** number of one bits *)
+Fixpoint popcount_pos (p : positive) : N :=
+  match p with xH => 1 | xO q => popcount_pos q | xI q => N.succ (popcount_pos q) end.
+Definition popcount (x : N) : N := match x with N0 => 0%N | Npos p => popcount_pos p end.
+
+(** Printing aid for prefixes of the submasks of a mask with many one bits (the items are close to [x], so their bits
+    at the free positions form a number close to [2^popcount x - 1]): the printer writes an item by its distance from
+    that top value. *)
+Definition unpack_sub_top (x : Z) (idxs : list Z) : list Z :=
+  let X := Z.to_N x in
+  map (fun i => Z.of_N (deposit X (2 ^ popcount X - 1 - Z.to_N i)%N)) idxs.
+
+(** Printing aid for long sequences: run-length encoding, [(value, count)] pairs. *)
+Definition rle (runs : list (Z * Z)) : list Z :=
+  flat_map (fun vc => repeat (fst vc) (Z.to_nat (snd vc))) runs.
 
 Definition nonneg (l : list Z) : bool := forallb (fun v => 0 <=? v) l.
 Definition toN (l : list Z) : list N := map Z.to_N l.
@@ -55,14 +74,17 @@ Definition model_check (c : case) : bool :=
       match iter_permutations d with
       | Some l => leqb (leqb Z.eqb) l out | None => false end
   | CNb k n m i j out => leqb zz_eqb (neighbours (offs_of k) n m i j) out
+  | CSubPre w x k out =>
+      (0 <=? w) && (0 <=? x) && (0 <=? k) && nonneg out &&
+      leqb N.eqb (iter_submasks_take (Z.to_N w) (Z.to_N x) (Z.to_nat k)) (toN out)
+  | CSupPre w x k out =>
+      (0 <=? w) && (0 <=? x) && (0 <=? k) && nonneg out &&
+      leqb N.eqb (iter_supermasks_take (Z.to_N w) (Z.to_N x) (Z.to_nat k)) (toN out)
+  | CIterPre d k out =>
+      (0 <=? k) && leqb (leqb Z.eqb) (iter_permutations_take d (Z.to_nat k)) out
   end.
 
 (** ** specification side *)
-
-(** number of one bits *)
-Fixpoint popcount_pos (p : positive) : N :=
-  match p with xH => 1 | xO q => popcount_pos q | xI q => N.succ (popcount_pos q) end.
-Definition popcount (x : N) : N := match x with N0 => 0%N | Npos p => popcount_pos p end.
 
 (** [0; 1; ...; 2^w - 1] (used for w <= 8 only) *)
 Definition all_below (w : N) : list N := map N.of_nat (seq 0 (N.to_nat (2 ^ w))).
@@ -86,6 +108,29 @@ Definition spec_sup (w x : N) (out : list N) : bool :=
   if N.leb w 8 then leqb N.eqb out (filter (is_sup w x) (all_below w))
   else forallb (is_sup w x) out && strictly N.ltb out
        && N.eqb (last out 0%N) (2 ^ w - 1) && N.eqb (lengthN out) (2 ^ (w - popcount x)).
+
+(** The first [k] items in closed form.  The bits of a submask of [x] at the one positions of [x] form a number
+    below [2^popcount x], and this reading is monotone; so the strictly decreasing listing of all submasks has the
+    submask that reads [2^popcount x - 1 - i] at position [i] ([deposit x j] = the submask that reads [j]).
+    Supermasks of [x] are [x + ] a submask of the complement, in increasing order of that reading. *)
+Fixpoint sub_closed (x j : N) (k : nat) : list N :=
+  match k with
+  | O => []
+  | S k' => deposit x j :: (if N.eqb j 0 then [] else sub_closed x (j - 1)%N k')
+  end.
+Fixpoint sup_closed (x free top j : N) (k : nat) : list N :=
+  match k with
+  | O => []
+  | S k' => (x + deposit free j)%N :: (if N.eqb j top then [] else sup_closed x free top (j + 1)%N k')
+  end.
+
+Definition spec_sub_pre (w x : N) (k : nat) (out : list N) : bool :=
+  leqb N.eqb out (sub_closed x (2 ^ popcount x - 1)%N k)
+  && (if N.leb w 8 then leqb N.eqb out (firstn k (filter (is_sub x) (rev (all_below w)))) else true).
+
+Definition spec_sup_pre (w x : N) (k : nat) (out : list N) : bool :=
+  (let free := (2 ^ w - 1 - x)%N in leqb N.eqb out (sup_closed x free (2 ^ popcount free - 1)%N 0%N k))
+  && (if N.leb w 8 then leqb N.eqb out (firstn k (filter (is_sup w x) (all_below w))) else true).
 
 (** distinct arrangements of a multiset, listed lexicographically, by the definition:
     choose the first element among the distinct values in increasing order, recurse. *)
@@ -128,6 +173,47 @@ Definition spec_next (d : list Z) (r : bool) (out : list Z) : bool :=
   | None => negb r && leqb Z.eqb out (hd [] A)
   end.
 
+(** The successor, directly (no enumeration, any length).  [r = true]: [d] and [out] first differ at some position
+    (the pivot), where [d] has [a] and [out] has [b]; [a < b]; the rest [td] of [d] is non-increasing (no later
+    position could have been raised); [b] occurs in [td] and is its least element greater than [a]; the rest of [out]
+    is non-decreasing and [out] is a rearrangement of [d].  [r = false]: [d] is non-increasing and [out] is its
+    reversal, which is non-decreasing.  [ProofsDirect.v] proves that this accepts exactly what [spec_next] accepts. *)
+Fixpoint noninc_b (l : list Z) : bool :=
+  match l with a :: ((b :: _) as t) => (b <=? a) && noninc_b t | _ => true end.
+Fixpoint nondec_b (l : list Z) : bool :=
+  match l with a :: ((b :: _) as t) => (a <=? b) && nondec_b t | _ => true end.
+Definition memZ (v : Z) (l : list Z) : bool := existsb (Z.eqb v) l.
+
+Fixpoint spec_next_true (d out : list Z) : bool :=
+  match d, out with
+  | a :: td, b :: to =>
+      if a =? b then spec_next_true td to
+      else (a <? b) && noninc_b td && memZ b td
+           && forallb (fun v => (v <=? a) || (b <=? v)) td
+           && nondec_b to && leqb Z.eqb (ZSort.sort (a :: td)) (ZSort.sort (b :: to))
+  | _, _ => false
+  end.
+(** ([rev_append d []] is [rev d] in linear time; [if] and not [&&]: vm_compute evaluates both arguments of [&&]) *)
+Definition spec_next_direct (d : list Z) (r : bool) (out : list Z) : bool :=
+  if r then spec_next_true d out
+  else if noninc_b d then leqb Z.eqb out (rev_append d []) && nondec_b out else false.
+
+(** a prefix of the listing: starts with the sorted data; every further item is the successor of the one before;
+    the listing may stop before the [k] requested items only after the last (non-increasing) arrangement.
+    [chain_ok cur rest k]: [rest] follows [cur], [k] more items were requested. *)
+Fixpoint chain_ok (cur : list Z) (rest : list (list Z)) (k : nat) : bool :=
+  match rest with
+  | [] => (k =? 0)%nat || noninc_b cur
+  | nx :: t => match k with O => false | S k' => spec_next_true cur nx && chain_ok nx t k' end
+  end.
+Definition spec_iter_pre (d : list Z) (k : nat) (out : list (list Z)) : bool :=
+  match out, k with
+  | [], O => true
+  | s :: rest, S k' => leqb Z.eqb s (ZSort.sort d) && chain_ok s rest k'
+  | _, _ => false
+  end
+  && (if (length d <=? 8)%nat then leqb (leqb Z.eqb) out (firstn k (all_arrangements d)) else true).
+
 (** the eight surrounding cells in the iterators' fixed (counter-clockwise from (i, j+1)) order *)
 Definition ring (i j : Z) : list (Z * Z) :=
   [(i, j + 1); (i - 1, j + 1); (i - 1, j); (i - 1, j - 1); (i, j - 1); (i + 1, j - 1); (i + 1, j); (i + 1, j + 1)].
@@ -155,17 +241,27 @@ Definition spec_check (c : case) : bool :=
   | CSup w x out =>
       if negb ((0 <=? w) && (0 <=? x) && (x <? 2 ^ w)) then true
       else nonneg out && spec_sup (Z.to_N w) (Z.to_N x) (toN out)
-  | CNext d r out => spec_next d r out
+  | CNext d r out =>
+      (* the brute-force listing up to length 9 (where it is feasible) and the direct description at every length *)
+      spec_next_direct d r out && (if (length d <=? 9)%nat then spec_next d r out else true)
   | CIter d out => leqb (leqb Z.eqb) out (all_arrangements d)
   | CNb k n m i j out =>
       if negb ((0 <=? n) && (0 <=? m) && (0 <=? i) && (0 <=? j)) then true
       else spec_nb k n m i j out
+  | CSubPre w x k out =>
+      if negb ((0 <=? w) && (0 <=? x) && (x <? 2 ^ w) && (0 <=? k)) then true
+      else nonneg out && spec_sub_pre (Z.to_N w) (Z.to_N x) (Z.to_nat k) (toN out)
+  | CSupPre w x k out =>
+      if negb ((0 <=? w) && (0 <=? x) && (x <? 2 ^ w) && (0 <=? k)) then true
+      else nonneg out && spec_sup_pre (Z.to_N w) (Z.to_N x) (Z.to_nat k) (toN out)
+  | CIterPre d k out =>
+      if negb (0 <=? k) then true else spec_iter_pre d (Z.to_nat k) out
   end.
 
 (** the cases the theorems cover: integer types of at most 128 bits *)
 Definition in_scope (c : case) : Prop :=
   match c with
-  | CSub w _ _ | CSup w _ _ => w <= 128
+  | CSub w _ _ | CSup w _ _ | CSubPre w _ _ _ | CSupPre w _ _ _ => w <= 128
   | _ => True
   end.
 
@@ -182,4 +278,7 @@ Definition explain (c : case) : shown :=
   | CNext d _ _ => let '(r, l) := next_permutation d in ShNext r l
   | CIter d _ => ShIter (iter_permutations d)
   | CNb k n m i j _ => ShNb (neighbours (offs_of k) n m i j)
+  | CSubPre w x k _ => ShMasks (Some (iter_submasks_take (Z.to_N w) (Z.to_N x) (Z.to_nat k)))
+  | CSupPre w x k _ => ShMasks (Some (iter_supermasks_take (Z.to_N w) (Z.to_N x) (Z.to_nat k)))
+  | CIterPre d k _ => ShIter (Some (iter_permutations_take d (Z.to_nat k)))
   end.
